@@ -8,6 +8,7 @@ import time
 import types
 
 import optuna.storages.journal._file as jf
+from optuna.trial import TrialState as optuna_TrialState
 
 import symex as sx
 from symex import Obligation
@@ -49,6 +50,8 @@ class FS:
         self.gen = 0
 
     def tick(self, what):
+        if getattr(self, "ctrl", None) is not None:
+            raise self.ctrl          # an explorer control exception is unwinding through finally-blocks: every further call re-raises it
         if self.dead:
             raise Crash(self.where)
         self.total = getattr(self, "total", 0) + 1
@@ -87,7 +90,12 @@ class WFile:
         if _fs.dead:
             raise Crash(_fs.where)
         if _fs.crash_at is not None and _fs.calls + 1 == _fs.crash_at:      # the crash hits inside this write
-            _fs.files[self.path] = _fs.files.get(self.path, b"") + data[:_fs.cut(len(data))]
+            try:
+                ncut = _fs.cut(len(data))
+            except BaseException as e:      # Cutoff / PathAbort from the explorer must not be replaced by a Crash raised in a finally-block
+                _fs.ctrl = e
+                raise
+            _fs.files[self.path] = _fs.files.get(self.path, b"") + data[:ncut]
         _fs.tick("write")
         _fs.files[self.path] = _fs.files.get(self.path, b"") + data
 
@@ -230,6 +238,71 @@ def make_crash_body(lock_cls_name, n_before, n_after):
     return body
 
 
+def storage_level_body():
+    """the same crash model under the real JournalStorage: acknowledged storage calls survive, the interrupted one is all-or-nothing"""
+    global _fs
+    import warnings
+    warnings.simplefilter("ignore")
+    from optuna.storages import JournalStorage
+    from optuna.study import StudyDirection
+    jf.os, jf.time, jf.open = OS(), TIME(), fake_open
+    _fs = FS()
+    _fs.files[P] = b""
+    lock_cls_name = sx.choose(["JournalFileSymlinkLock", "JournalFileOpenLock"], "lock")
+    mk = lambda: JournalStorage(jf.JournalFileBackend(P, lock_obj=getattr(jf, lock_cls_name)(P)))     # noqa: E731
+    w = mk()
+    sid = w.create_new_study([StudyDirection.MINIMIZE], "s")
+    tid = w.create_new_trial(sid)
+    w.set_trial_user_attr(tid, "acknowledged", 1)
+    victim_call = sx.choose(["set_trial_user_attr", "set_trial_state_values", "create_new_trial"], "interrupted_call")
+    _fs.calls = 0
+    n_calls = 9 if "Open" in lock_cls_name else 8
+    _fs.crash_at = 1 + sx.choose(n_calls, "crash_at_call")
+    cutinfo = {}
+
+    def cut(n):
+        c = sx.choose([0, 1, n // 2, n - 1, n], "bytes_delivered")
+        cutinfo["c"] = "none" if c == 0 else "all" if c == n else "torn"
+        return c
+    _fs.cut = cut
+    crashed = None
+    try:
+        if victim_call == "set_trial_user_attr":
+            w.set_trial_user_attr(tid, "interrupted", 2)
+        elif victim_call == "set_trial_state_values":
+            w.set_trial_state_values(tid, optuna_TrialState.COMPLETE, [1.0])
+        else:
+            w.create_new_trial(sid)
+    except Crash:
+        crashed = _fs.where
+    _fs.crash_at = None
+    _fs.dead = False
+    sx.note("scenario", dict(lock=lock_cls_name, crashed_during=crashed, write=cutinfo.get("c", "-"), call=victim_call))
+    sx.reach("crashed" if crashed else "not-crashed")
+    try:
+        a = mk()                                   # a fresh opener
+        t0 = a.get_all_trials(sid)[0]
+        assert t0.user_attrs.get("acknowledged") == 1, "an acknowledged storage call is not visible after the crash"
+        if victim_call == "set_trial_user_attr":
+            assert t0.user_attrs.get("interrupted") in (None, 2)
+        elif victim_call == "set_trial_state_values":
+            assert (t0.state, t0.values) in ((optuna_TrialState.RUNNING, None), (optuna_TrialState.COMPLETE, [1.0])), "interrupted state change half applied"
+        else:
+            assert len(a.get_all_trials(sid)) in (1, 2)
+        n_before = len(a.get_all_trials(sid))
+        # survivors keep writing; everything they write is visible to everyone
+        b = mk()
+        t_new = a.create_new_trial(sid)
+        a.set_trial_user_attr(t_new, "after", 3)
+        for reader in (a, b, mk()):
+            ts = reader.get_all_trials(sid)
+            assert len(ts) == n_before + 1 and ts[-1].user_attrs.get("after") == 3, \
+                f"after a crash during {crashed} ({cutinfo.get('c', '-')} write) acknowledged appends are not all visible in order: {[t.user_attrs for t in ts]}"
+    except json.JSONDecodeError as e:
+        raise AssertionError(f"after a crash during {crashed} ({cutinfo.get('c', '-')} write) read_logs raises JSONDecodeError for every worker: {e}")
+    return True
+
+
 def setup(concrete):
     pass
 
@@ -305,7 +378,9 @@ CODE = [jf.JournalFileBackend.append_logs, jf.JournalFileBackend.read_logs, jf.J
 def classify(c):
     sc = c.get("notes", {}).get("scenario", {})
     if sc:
-        kind = "JSONDecodeError-for-everyone" if "JSONDecodeError" in c["message"] else ("acknowledged-append-lost" if "not all visible" in c["message"] else c["message"][:60])
+        m = c["message"]
+        kind = ("JSONDecodeError-for-everyone" if "JSONDecodeError" in m else "acknowledged-append-lost" if "not all visible" in m else
+                "survivor-create_new_trial-swallowed" if ("AttributeError" in m and "_storage.py" in m) else m[:60])
         return f"crash-during-{sc.get('crashed_during')}:{sc.get('write')}-write:{kind}"
     return c["message"][:100]
 
@@ -323,6 +398,9 @@ def obligations(tier):
         obs.append(Obligation(f"takeover-bmc-{short}", None, None, CODE, custom=make_takeover_bmc(cls),
                               bounds=dict(dead_holder=1, survivors=2, macro_steps=12, timing="arbitrary"),
                               describe=f"{cls}: two survivors and a dead lock holder, all schedules and timings (BMC, replayed)"))
+    obs.append(Obligation("storage-level", storage_level_body, setup, CODE, bounds=dict(acknowledged_calls=3, interrupted_calls=3, crash_points="every system call", torn_bytes=[0, 1, "n/2", "n-1", "n"]),
+                          shard_depth=3, budget_s=600, classify=classify, require_reach=["crashed"],
+                          describe="real JournalStorage on the file backend: acknowledged calls survive, interrupted call all-or-nothing, survivors keep working"))
     obs.append(Obligation("survivor-progress", survivor_progress_body, setup, CODE, budget_s=120, classify=classify, require_reach=["appended"],
                           describe="a survivor overcomes a dead holder's lock and appends (both lock classes)"))
     return obs
